@@ -244,7 +244,12 @@ CLAIMED = {
              'injective key (printer grammars of both notations are LR(1) '
              'over canonical tokens). Hence f == g iff same tree, equal '
              'formulas hash equally, == is an equivalence, clone shares '
-             'nothing.',
+             'nothing. Every attribute == reads on the other operand under '
+             'an isinstance test exists on each admitted class that can '
+             'reach the method as right operand (constructor-chain field '
+             'analysis + reflected-operand priority); the comparison key is '
+             'recomputed from the current tree, not memoised in the '
+             '(mutable) node.',
         ref='3-C11',
         note='trusted: atoms identifier-style, not reserved words; str() '
              'deterministic (C07 R-PURE-4)',
@@ -291,7 +296,9 @@ CLAIMED = {
              'set-builder summaries of subgraph/reversed/clone equal the '
              'specification on every digraph with <=3 nodes and every node '
              'subset; the five worklist-closure conditions of reachability '
-             '(each necessary, together sufficient) hold.',
+             '(each necessary, together sufficient) hold; the adjacency map '
+             'is a plain dict, or no read-only method subscripts an '
+             'auto-inserting map with a key that may be missing.',
         ref='3-C13',
         note='trusted: Python dict/set semantics; bounded comparison of '
              'extracted summaries (<=3 nodes); worklist conditions are '
